@@ -58,3 +58,63 @@ Definition vs_all_pct (o : vtt_settings) : bool :=
   let p x := match x with Some s => unit_eqb (s_unit s) PCT | None => true end in
   p (vs_position o) && p (vs_line o) && p (vs_size o).
 Definition vtt_out_pct (o : vtt_out) : bool := match o with VSet s => vs_all_pct s | _ => true end.
+
+(* ---- C12: DFXP round trip (statement level) ------------------------------------------------------------------ *)
+(* the effective layout of a character: node level, else caption level, else language level *)
+Definition spec_effective (lang_l cap_l node_l : option layout) : option layout :=
+  match node_l, cap_l, lang_l with
+  | Some n, _, _ => if layout_truthy n then Some n else
+                    match cap_l with
+                    | Some c => if layout_truthy c then Some c else lang_l
+                    | None => lang_l
+                    end
+  | None, Some c, _ => if layout_truthy c then Some c else lang_l
+  | None, None, _ => lang_l
+  end.
+
+(* what a DFXP document can carry: two-decimal percentages; absent alignment parts take the defaults start / after *)
+Definition round2 (a : size) : size := mkSize (inject_Z (hundredths (s_val a)) / 100)%Q (s_unit a).
+Definition spec_read_back (l : layout) : layout :=
+  mkLayout (option_map (fun p => mkPoint (round2 (p_x p)) (round2 (p_y p))) (l_origin l))
+           (option_map (fun p => mkStretch (round2 (st_h p)) (round2 (st_v p))) (l_extent l))
+           (option_map (fun p => mkPadding (round2 (pd_before p)) (round2 (pd_after p)) (round2 (pd_start p)) (round2 (pd_end p)))
+                       (l_padding l))
+           (Some (mkAlign (Some (match l_alignment l with Some a => match al_h a with Some h => h | None => HStart end | None => HStart end))
+                          (Some (match l_alignment l with Some a => match al_v a with Some v => v | None => VBottom end | None => VBottom end))))
+           None.
+Definition spec_default_read : layout := mkLayout None None None (Some (mkAlign (Some HStart) (Some VBottom))) None.
+
+(* expected effective layout after write + read, given the (already transformed) layouts of the three levels *)
+Definition expected_effective (lang_l cap_l node_l : option layout) : layout :=
+  match spec_effective lang_l cap_l node_l with
+  | Some l => if layout_truthy l then (if has_region l then spec_read_back l else spec_default_read) else spec_default_read
+  | None => spec_default_read
+  end.
+
+(* observation: the layout found on the character after reading; compared on the geometric components,
+   values within 1e-9 (they are re-parsed two-decimal numbers) *)
+Definition size_close (a b : size) : bool := unit_eqb (s_unit a) (s_unit b) && q_close9 (s_val a) (s_val b).
+Definition layout_close (a b : layout) : bool :=
+  opt_eqb (fun p q => size_close (p_x p) (p_x q) && size_close (p_y p) (p_y q)) (l_origin a) (l_origin b)
+  && opt_eqb (fun p q => size_close (st_h p) (st_h q) && size_close (st_v p) (st_v q)) (l_extent a) (l_extent b)
+  && opt_eqb (fun p q => size_close (pd_before p) (pd_before q) && size_close (pd_after p) (pd_after q)
+                         && size_close (pd_start p) (pd_start q) && size_close (pd_end p) (pd_end q))
+             (l_padding a) (l_padding b)
+  && opt_eqb alignment_eqb (l_alignment a) (l_alignment b).
+
+Definition ok_effective (lang_l cap_l node_l : option layout) (obs : option layout) : bool :=
+  match obs with
+  | Some o => layout_close o (expected_effective lang_l cap_l node_l)
+  | None => false
+  end.
+
+(* WebVTT: nodes of one caption with different layouts become separate cues: one cue per maximal run of equal layouts
+   (the representative is the last layout of the run) *)
+Fixpoint runs_last (ls : list layout) : list layout :=
+  match ls with
+  | [] => []
+  | a :: t => match t with
+              | [] => [a]
+              | b :: _ => if layout_eqb b a then runs_last t else a :: runs_last t
+              end
+  end.
